@@ -259,6 +259,14 @@ func (h *harness) evalParse(p pcase, w *wk) (*ocsp.Response, error) {
 	if !sub(p.input, r.TBSResponseData) {
 		h.c.Violation("accepted response: returned TBSResponseData is not a part of the input", h.wit(p, hex.EncodeToString(r.TBSResponseData)))
 	}
+	// the signature the library verified and returns must be the one on the wire: the VALUE of the input's signature
+	// BIT STRING as the reference decoder reads it (the bits right-aligned; with no unused bits, its octets) -- otherwise
+	// a response whose signature field was altered after signing is accepted on the strength of other bits
+	if ws, ok := wireSignature(p.input); !ok {
+		w.hist["accept: the reference decoder cannot read the input's signature field (returned Signature not compared)"]++
+	} else if !bytes.Equal(ws, r.Signature) {
+		h.c.Violation("accepted response: returned Signature is not the value of the input's signature BIT STRING", h.wit(p, "wire "+hex.EncodeToString(ws)+" returned "+hex.EncodeToString(r.Signature)))
+	}
 	if p.issuer != nil {
 		var certTBS, certSig []byte
 		if r.Certificate != nil {
@@ -521,6 +529,19 @@ type baseDER struct {
 	tbs []byte
 }
 
+// wireSignature reads the signature field of an OCSPResponse with the standard library's decoder.
+func wireSignature(in []byte) ([]byte, bool) {
+	var o sOCSP
+	if _, err := asn1.Unmarshal(in, &o); err != nil {
+		return nil, false
+	}
+	var b sBasicRaw
+	if _, err := asn1.Unmarshal(o.Bytes.Response, &b); err != nil {
+		return nil, false
+	}
+	return b.Sig.RightAlign(), true
+}
+
 func subVals(b byte) []byte {
 	out := make([]byte, 0, 4)
 	for _, v := range []byte{0x00, 0xff, b ^ 0x01, b ^ 0x80} {
@@ -554,7 +575,7 @@ func main() {
 		for _, k := range []string{"rsa2048", "rsa2048b", "p256", "p256b", "p384", "p384b", "ed-issuer"} {
 			h.signers[k] = fx.Signer(k)
 		}
-		c.Rule("G-field over response templates {status/reason(6) x time shape(4) x IssuerHash(5) x serial(3) x extensions(4: none, one non-critical, one critical, two non-critical)} with <=2 non-default fields (quick) or the full product (thorough) x 52 PKI scenarios {issuer itself | delegated+embedded | delegated by an impostor CA with the issuer's name | delegated not embedded | embedded but signed with another key} x issuer key {RSA-2048,P-256,P-384,Ed25519} x signer key x every requested SignatureAlgorithm the API accepts; G-tlv + every single-byte substitution {00,ff,b^01,b^80} + every truncation of each produced DER of the fault subset; component splices between responses; harness-built 1-3 status bodies for ParseResponseForCert x singleExtensions {none | a distinct non-critical one per single | additionally an unknown critical one on single #0, #1 or #2}: the answer (fields AND Extensions) must come from the first matching single, a critical extension rejects exactly when it sits on that single; singleExtensions in the produced DER and Response.Extensions after parsing equal the template's ExtraExtensions (order, id, critical, value); producedAt in the DER of CreateResponse is a whole minute between the instants read around the call (+-5 min); templates outside the documented domain {Status 3 / -1, IssuerHash MD5 / SHA-224, nil serial: an error is demanded | Revoked with zero RevokedAt, negative serial, zero serial: an error or a well-formed faithful round trip} x every authorised RSA/ECDSA-signed scenario; an accepted response whose ECDSA signature bytes crypto/ecdsa.VerifyASN1 refuses is a violation even if (r,s) verify; requests hash x serial x issuer. A case is non-trivial when the parser reached the signature checks (accepted, or rejected by a signature/critical-extension/hash check)")
+		c.Rule("G-field over response templates {status/reason(6) x time shape(4) x IssuerHash(5) x serial(3) x extensions(4: none, one non-critical, one critical, two non-critical)} with <=2 non-default fields (quick) or the full product (thorough) x 52 PKI scenarios {issuer itself | delegated+embedded | delegated by an impostor CA with the issuer's name | delegated not embedded | embedded but signed with another key} x issuer key {RSA-2048,P-256,P-384,Ed25519} x signer key x every requested SignatureAlgorithm the API accepts; G-tlv + every single-byte substitution {00,ff,b^01,b^80} + every truncation of each produced DER of the fault subset; component splices between responses; harness-built 1-3 status bodies for ParseResponseForCert x singleExtensions {none | a distinct non-critical one per single | additionally an unknown critical one on single #0, #1 or #2}: the answer (fields AND Extensions) must come from the first matching single, a critical extension rejects exactly when it sits on that single; singleExtensions in the produced DER and Response.Extensions after parsing equal the template's ExtraExtensions (order, id, critical, value); producedAt in the DER of CreateResponse is a whole minute between the instants read around the call (+-5 min); templates outside the documented domain {Status 3 / -1, IssuerHash MD5 / SHA-224, nil serial: an error is demanded | Revoked with zero RevokedAt, negative serial, zero serial: an error or a well-formed faithful round trip} x every authorised RSA/ECDSA-signed scenario; an accepted response whose ECDSA signature bytes crypto/ecdsa.VerifyASN1 refuses is a violation even if (r,s) verify; the Signature an accepted response returns must be the value of the input's signature BIT STRING as the standard decoder reads it (unused bits included); requests hash x serial x issuer. A case is non-trivial when the parser reached the signature checks (accepted, or rejected by a signature/critical-extension/hash check)")
 		c.Assume("the Go standard library (crypto/rsa, crypto/ecdsa, crypto/ed25519, encoding/asn1, crypto/x509.ParsePKIXPublicKey) decides signature validity and decodes DER for the oracle",
 			"a signature counts as valid if it verifies under ANY of MD5/SHA-1/SHA-2 with PKCS#1 v1.5, PSS, ECDSA or Ed25519: the property only forbids accepting what does not verify",
 			"ProducedAt is time.Now() inside CreateResponse (documented: the current date to the minute): the check reads the clock immediately before and after the call and allows 5 minutes either side, so only a clock step of several minutes during the run could disturb it; ECDSA certificate signatures minted by fx.Mint are randomised by Go: byte counts of individual outcome classes may differ by a few units between runs, verdicts do not depend on them",
